@@ -26,9 +26,6 @@ type Case struct {
 
 // lawSig classifies a span-law violation for the known-findings file.
 func lawSig(src string, mode string, v lexh.LawViolation, toks []lexh.Tok) string {
-	if mode == "s" && strings.HasPrefix(src, "#!") {
-		return "span:shebang-offset"
-	}
 	t := toks[v.Tok]
 	switch v.Law {
 	case "line":
@@ -79,7 +76,7 @@ func Run(c *vh.Ctx) {
 		c.Res.Rule = "inputs: every file of the tests/+examples/ corpus in both lexing modes; seeded mutants of corpus files (CRLF, multi-byte and raw bytes, heredocs, interpolation, inline HTML, truncation, deletion, duplication); snippet-built programs and their mutants; all 1- and 2-byte strings over a boundary alphabet. non-trivial = input yields at least 3 top-level tokens; distinct = distinct (mode, input bytes)"
 		// past failures and the replays of the known findings run first
 		for _, pf := range [][2]string{{"s", "#!a\nx"}, {"s", "\\ App"}, {"s", "\\\xe3"}, {"s", "$a;\n// c\r\n$b"}, {"s", "b'a\nb'; $x;"},
-			{"t", "<?php $a;\n// c\r\n$b"}, {"s", "\\class\\use\\Foo::x()"}, {"t", "<?php \\ ?>abc<?php \\x"}, {"s", "<<<X\nabc \"q\" $x"}} {
+			{"t", "<?php $a;\n// c\r\n$b"}, {"s", "\\class\\use\\Foo::x()"}, {"t", "<?php \\ ?>abc<?php \\x"}, {"t", "<?php echo \"1\"; \\ ?>abc<?php echo \"2\";"}, {"s", "<<<X\nabc \"q\" $x"}} {
 			add("past", pf[0], pf[1])
 		}
 		corpus := lexh.Corpus(c.Repo)
